@@ -81,7 +81,7 @@ ASSUMPTIONS = [
 BOUNDS = {
     "quick": {
         "codecs": 11, "repertoire": 4, "max_chars": 2, "carriers": 3, "declarations": "6 (+12 BOM variants)",
-        "paths": "bytes,file,mod,reopen,newproc", "outputs": 5, "neg": "all single bytes >=0x80 x 3 frames x 2 paths x {comment,input_encoding}",
+        "paths": "bytes,file,mod,reopen,newproc for outputs (None),(same codec,strict); bytes,mod for the 3 error-handler outputs", "outputs": 5, "neg": "all single bytes >=0x80 x 3 frames x 2 paths x {comment,input_encoding}",
     },
     "thorough": {
         "codecs": 11, "repertoire": 5, "max_chars": 3, "carriers": 7, "declarations": "10 (+24 BOM variants)",
@@ -163,6 +163,8 @@ OUTS_QUICK = [(None, "strict"), ("SAME", "strict"), ("ascii", "replace"), ("asci
 OUTS_THOROUGH = OUTS_QUICK + [("ascii", "strict")]
 
 PATHS_QUICK = ["bytes", "file", "mod", "reopen", "newproc"]
+# quick tier: the three error-handler output configurations are crossed with these paths only
+PATHS_QUICK_LITE = ["bytes", "mod"]
 PATHS_THOROUGH = ["bytes", "file", "mod", "reopen", "newproc", "lookup"]
 
 
@@ -273,9 +275,25 @@ _NORM = [
 ]
 
 
+def _canon(m):
+    try:
+        return m.group(1) + codecs.lookup(m.group(2)).name + m.group(3)
+    except LookupError:
+        return m.group(0)
+
+
+# the statement does not fix how mako spells the codec it records (BOM + 'UTF-8' may be recorded as utf-8 or UTF-8)
+_SRCENC = [
+    re.compile(r"^(_source_encoding = ')([^'\n]*)(')$", re.M),
+    re.compile(r'("source_encoding": ")([^"\n]*)(")'),
+]
+
+
 def norm_code(code):
     for r, s in _NORM:
         code = r.sub(s, code)
+    for r in _SRCENC:
+        code = r.sub(_canon, code)
     return code
 
 
@@ -618,7 +636,7 @@ def shard_of(raw, ie, ns):
     return zlib.crc32(raw + b"|" + (ie or "").encode()) % ns
 
 
-def run_source_case(codec, decl, carrier, L, outs, paths, env, st, seen=None):
+def run_source_case(codec, decl, carrier, L, outs, paths, env, st, seen=None, lite_paths=None):
     """Execute one source case on every path x output configuration."""
     from mako.template import Template
 
@@ -678,7 +696,7 @@ def run_source_case(codec, decl, carrier, L, outs, paths, env, st, seen=None):
         kw = dict(kw_in)
         kw.update(kwo)
         name = "%s_%d.html" % (base, oi)
-        for path in paths:
+        for path in (paths if (lite_paths is None or oi < 2) else lite_paths):
             if seen is not None:
                 key = (raw, ie, path, out)
                 if key in seen:
@@ -759,7 +777,7 @@ def run_grid(job, st):
         if shard_of(raw, decl[3], ns) != sh:
             continue
         nsrc += 1
-        run_source_case(codec, decl, carrier, L, outs, paths, env, st, seen=seen)
+        run_source_case(codec, decl, carrier, L, outs, paths, env, st, seen=seen, lite_paths=PATHS_QUICK_LITE if quick else None)
         if env.count >= FLUSH_EVERY:
             flush_newproc(env, st)
     flush_newproc(env, st)
